@@ -77,6 +77,7 @@ func c10Gen(r *RNG, id string) *Case {
 		seqs = append(seqs, tractSeq(r, strings.ToUpper(ref)))
 	}
 	c.Set("ref", ref).Set("names", strings.Join(randNamesCSV(r, n, "", true), ",")).Set("seqs", strings.Join(seqs, ","))
+	maybeCLI(r, c, 6)
 	for _, s := range seqs {
 		if hasAmbig(s) {
 			c.NonTrv = true
@@ -90,6 +91,10 @@ func execC10(r *RNG, c *Case) {
 	seqs := strings.Split(c.Get("seqs"), ",")
 	refTxt := renderFasta([]string{"reference"}, []string{c.Get("ref")}, randLayout(r))
 	alnTxt := renderFasta(withDescriptions(r, names), seqs, randLayout(r))
+	if isCLI(c) {
+		c.Set("go", goField(viaCLI(map[string]string{"r.fa": refTxt, "a.fa": alnTxt}, "", []string{"updown", "list", "-r", "{dir}/r.fa", "-q", "{dir}/a.fa"}, nil)))
+		return
+	}
 	res := safeRun(20*time.Second, func() (string, error) {
 		var out bytes.Buffer
 		err := updown.List(strings.NewReader(refTxt), strings.NewReader(alnTxt), &out)
